@@ -166,8 +166,8 @@ Proof.
   - (* PIkTaken *) injection H as <-. e4_fin HI Hok Hpc.
   - (* PIkLookup *)
     destruct hit as [e|].
-    + destruct (match e_kind e with KCreate => _ | _ => _ end);
-        [|destruct (is_tx_kind (rq_kind (t_req th)))]; injection H as <-; e4_fin HI Hok Hpc.
+    + (* replay of the request's own outcome / refusal of a reused key: a [finish] from a benign pc either way *)
+      destruct (is_outcome_of (t_req th) e); injection H as <-; e4_fin HI Hok Hpc.
     + injection H as <-.
       apply (e4_inv_enter s (gen s) t _ _ HI (Hno ltac:(discriminate) ltac:(discriminate)) (e4_enter_exec_shape _ _ _)).
       * intros G. apply (k_grant _ _ _ Hok); auto. rewrite Hpc; reflexivity.
